@@ -70,7 +70,6 @@ pub fn move_cell_recreate(&mut self, sheet: u32, target_row: i32, target_column:
 {
 //@fragment base/src/actions.rs Model::move_cell `if let Some((` .. `self.set_user_input(sheet, target_row, target_column, formula_or_value)?;`
 //@end
-        }
     Ok(())
 }
 
@@ -84,8 +83,6 @@ pub fn band_shift(&mut self, sheet: u32, column: i32, delta: i32, target_column:
 //@loop 3
                 invariant column == g_column(), delta == g_delta(), delta < 0, target_column == column + delta, small(column as int), small(delta as int)
 //@end
-            }
-        }
     // the moved column lands on target with its own attributes
     assert(target_column == move1(column as int, g_column(), g_delta()));
     let _ = self.workbook.worksheet_mut(sheet)?.set_column_width_and_style(target_column, width, hidden, style)?;
